@@ -26,6 +26,11 @@ def run(ctx):
         ids.add("".join(rng.choice(UP) for _ in range(3)) + "".join(rng.choice(HEXU) for _ in range(4)))
     ids = sorted(ids)
     bad_ids = ["", "P", "PNP0A0", "PNP0A080", "PNP0A08 ", "PNP0G08", "PNP0A0Z", "PNPXA08", "PNP-A08", "PNP0A0_"] + ["A" * n for n in range(0, 12) if n != 7]
+    nonhex = [chr(c) for c in range(0x20, 0x7f) if chr(c) not in HEXA]
+    for pos in range(3, 7):                                  # any non-hex character in a digit position is malformed
+        for ch in nonhex:
+            bad_ids.append("PNP0A08"[:pos] + ch + "PNP0A08"[pos + 1:])
+            bad_ids.append("ACPI000"[:pos] + ch + "ACPI000"[pos + 1:])
     uu = set()
     base = "aabbccdd-eeff-0123-4567-89abcdef0123"
     for pos in range(36):
@@ -44,8 +49,8 @@ def run(ctx):
         bad_uu.append(base[:pos - 1] + "-" + base[pos - 1] + base[pos + 1:])
     for pos in range(36):                                    # a non-hex character at every position
         if base[pos] != "-":
-            bad_uu.append(base[:pos] + "g" + base[pos + 1:])
-            bad_uu.append(base[:pos] + "-" + base[pos + 1:])
+            for ch in (nonhex if pos in (0, 1, 7, 9, 12, 14, 19, 24, 34, 35) else "g-+ G"):
+                bad_uu.append(base[:pos] + ch + base[pos + 1:])
     progs = []
     for what, lst in (("eisa", ids + bad_ids), ("uuid", uu + bad_uu)):
         for i in range(0, len(lst), 512):
